@@ -24,4 +24,8 @@ AgeTest(kind, unit, form, n, now, ent) == Cmp(form, n, Periods(now, ent[kind], u
 AgeInDomain(kind, now, ent) == NotEarlier(now, ent[kind])
 
 NewerTest(x, y, ent, ref) == Later(ent[x], ref[y])
+
+\* The reference file F of -newer / -newerXY when it is a symbolic link: the file it points to iff -H or -L is in
+\* effect and the link is not dangling, the link itself otherwise (mode "Ld": -L with a dangling link).
+RefRecord(mode, linkRec, targetRec) == IF mode \in {"H", "L"} THEN targetRec ELSE linkRec
 =============================================================================
